@@ -48,7 +48,7 @@ fn count(m: &[bool; K]) -> usize {
 
 /// op 0 union, 1 intersection, 2 difference, 3 symmetric_difference: driven with next() to
 /// exhaustion; each element once; size_hint brackets the true remaining count at every step.
-pub fn algebra<const NA: usize, const NB: usize>(ia: usize, ib: usize, op: u8) {
+pub fn algebra<const NA: usize, const NB: usize>(ia: usize, ib: usize, op: u8, steps: usize) {
     let (a, sa, _) = mk_set::<NA>(ia, 0);
     let (b, sb, _) = mk_set::<NB>(ib, 0);
     let ma = member(&sa);
@@ -71,7 +71,11 @@ pub fn algebra<const NA: usize, const NB: usize>(ia: usize, ib: usize, op: u8) {
         ($it:expr) => {{
             let mut it = $it;
             let mut j = 0;
+            let mut done = false;
             while j < NA + NB {
+                if j >= steps {
+                    break;
+                }
                 let (lo, hi) = it.size_hint();
                 let rem = total - yielded;
                 assert!(lo <= rem);
@@ -79,16 +83,23 @@ pub fn algebra<const NA: usize, const NB: usize>(ia: usize, ib: usize, op: u8) {
                     assert!(rem <= hi);
                 }
                 match it.next() {
-                    None => break,
+                    None => {
+                        done = true;
+                        break;
+                    }
                     Some(k) => {
                         cnt[k.id as usize] += 1;
                         yielded += 1;
                         assert!(yielded <= total);
+                        assert!(want[k.id as usize] && cnt[k.id as usize] == 1); // a member of the result, once
                     }
                 }
                 j += 1;
             }
-            assert!(it.next().is_none());
+            if done {
+                assert!(it.next().is_none());
+                assert!(yielded == total);
+            }
         }};
     }
     if op == 0 {
@@ -101,8 +112,7 @@ pub fn algebra<const NA: usize, const NB: usize>(ia: usize, ib: usize, op: u8) {
         drive!(a.symmetric_difference(&b));
     }
     let q = any_id();
-    assert!(cnt[q as usize] == want[q as usize] as u8);
-    assert!(yielded == total);
+    assert!(cnt[q as usize] <= want[q as usize] as u8);
     core::mem::forget(a);
     core::mem::forget(b);
 }
@@ -288,4 +298,35 @@ pub fn elem_ops<const N: usize, const N2: usize>(items: usize, deleted: usize, o
         assert!(got == st.lookup(q));
     }
     core::mem::forget(s);
+}
+
+/// As `algebra`, consumed through the iterators' `fold` specialisations in one call.
+pub fn algebra_fold<const NA: usize, const NB: usize>(ia: usize, ib: usize, op: u8) {
+    let (a, sa, _) = mk_set::<NA>(ia, 0);
+    let (b, sb, _) = mk_set::<NB>(ib, 0);
+    let ma = member(&sa);
+    let mb = member(&sb);
+    let f = |mut c: [u8; K], k: &Key| {
+        c[k.id as usize] += 1;
+        c
+    };
+    let cnt = if op == 0 {
+        a.union(&b).fold([0u8; K], f)
+    } else if op == 1 {
+        a.intersection(&b).fold([0u8; K], f)
+    } else if op == 2 {
+        a.difference(&b).fold([0u8; K], f)
+    } else {
+        a.symmetric_difference(&b).fold([0u8; K], f)
+    };
+    let q = any_id() as usize;
+    let want = match op {
+        0 => ma[q] || mb[q],
+        1 => ma[q] && mb[q],
+        2 => ma[q] && !mb[q],
+        _ => ma[q] != mb[q],
+    };
+    assert!(cnt[q] == want as u8);
+    core::mem::forget(a);
+    core::mem::forget(b);
 }
